@@ -57,6 +57,7 @@ def confirm(slot, sid):
     if r.returncode != 0:
         res["error"] = "patch.diff does not apply: " + r.stdout[-300:]
         return res
+    script = next((os.path.join(d, f) for f in ("demo.sh", "demo.py", "run_demo.sh") if os.path.exists(os.path.join(d, f))), None)
     has_demo = os.path.exists(demo)
     if has_demo:
         r = sh(["git", "-C", repo, "apply", "--whitespace=nowarn", demo])
@@ -78,6 +79,32 @@ def confirm(slot, sid):
         without = nextest(repo, target)
         res["without_change"] = without
         res["demo_passes_without_change"] = (not without["compile_error"]) and [n for n in without["failed_names"] if baseline_fail not in n] == []
+    if script and res.get("demo_fails_with_change") is None:
+        # black-box demonstration: `<script> <rnacos binary>` exits 0 when the property holds, 1 when it is violated
+        feat = ["--features", "debug"] if "features debug" in open(script).read() else []
+        env = dict(os.environ)
+        env.update({"CARGO_TARGET_DIR": target, "CARGO_NET_OFFLINE": "true"})
+        runs = {}
+        for label, with_patch in (("with_change", True), ("without_change", False)):
+            sh(["git", "-C", repo, "checkout", "-q", "--", "."])
+            sh(["git", "-C", repo, "clean", "-fdq"])
+            if with_patch:
+                sh(["git", "-C", repo, "apply", "--whitespace=nowarn", patch])
+            b = sh(["cargo", "build", "--offline", "--bin", "rnacos"] + feat, cwd=repo, env=env, timeout=2400)
+            if b.returncode != 0:
+                runs[label] = {"build_error": b.stdout[-400:]}
+                continue
+            binary = os.path.join(base, "rnacos-%s" % label)
+            sh(["cp", os.path.join(target, "debug", "rnacos"), binary])
+            interp = ["bash"] if script.endswith(".sh") else [sys.executable]
+            try:
+                r = sh(interp + [script, binary], cwd=d, timeout=900)
+                runs[label] = {"exit": r.returncode, "tail": r.stdout[-500:]}
+            except subprocess.TimeoutExpired:
+                runs[label] = {"exit": None, "tail": "timeout"}
+        res["script_demo"] = runs
+        res["demo_fails_with_change"] = runs.get("with_change", {}).get("exit") not in (0, None)
+        res["demo_passes_without_change"] = runs.get("without_change", {}).get("exit") == 0
     sh(["git", "-C", repo, "checkout", "-q", "--", "."])
     sh(["git", "-C", repo, "clean", "-fdq"])
     return res
